@@ -179,57 +179,15 @@ def judge_file(data, st, case, quick_blocks=None):
                 break
 
     # 1b'. other readers in the same process: one that was abandoned after
-    #      its first record, and one advanced in lockstep with ours
-    other = (b'#diffx: encoding=utf-8, version=1.0\n#.preamble: length=6\n'
-             b'hello\n#.change:\n#..preamble: length=3\nhi\n#..file:\n'
-             b'#...meta: format=json, length=9\n{"a": 1}\n#...diff: length=3\nab\n')
+    #      its first records, and one advanced in lockstep with ours
     ns_ = sut.load()
-
-    try:
-        it = iter(ns_.DiffXReader(io.BytesIO(other)))
-        next(it)
-        next(it)
-    except Exception:
-        pass
-
-    recs, e = sut.read_records(data)
+    recs, e = sut.read_records_lockstep(data)
     runs += 1
 
     if e is not None or not same(recs, base):
         st.violation('records-depend-on-another-reader',
-                     'after another reader was abandoned part-way: %r' % e,
-                     dict(case, other_reader='abandoned'))
-
-    mine = iter(ns_.DiffXReader(io.BytesIO(data)))
-    theirs = iter(ns_.DiffXReader(io.BytesIO(other)))
-    got = []
-    e = None
-
-    try:
-        while True:
-            try:
-                got.append(next(mine))
-            except StopIteration:
-                break
-
-            try:
-                next(theirs)
-            except StopIteration:
-                pass
-            except Exception as exc2:
-                raise sut.HarnessError('the other file is not readable: %r'
-                                       % exc2)
-    except sut.HarnessError:
-        raise
-    except Exception as exc:
-        e = exc
-
-    runs += 1
-
-    if e is not None or not same(got, base):
-        st.violation('records-depend-on-another-reader',
-                     'read in lockstep with another reader: %r' % e,
-                     dict(case, other_reader='interleaved'))
+                     'read after an abandoned reader and in lockstep with '
+                     'another: %r' % e, dict(case, other_reader='lockstep'))
 
     # 1b''. whitespace-only lines and empty lines with the other newline
     #       style before a header: a reader may refuse them, but if it
